@@ -955,8 +955,13 @@ def equatorial2ecliptical(right_ascension, declination, obliquity):
     ra = right_ascension.rad()
     dec = declination.rad()
     eps = obliquity.rad()
-    lon = atan2((sin(ra) * cos(eps) + tan(dec) * sin(eps)), cos(ra))
-    lat = asin(sin(dec) * cos(eps) - cos(dec) * sin(eps) * sin(ra))
+    y = sin(ra) * cos(eps) + tan(dec) * sin(eps)
+    x = cos(ra)
+    lon = atan2(y, x)
+    # cos(lat) = |cos(dec)| * sqrt(x^2 + y^2): atan2 keeps its accuracy
+    # close to the poles, where asin() loses it (and can leave its domain)
+    lat = atan2(sin(dec) * cos(eps) - cos(dec) * sin(eps) * sin(ra),
+                abs(cos(dec)) * sqrt(x * x + y * y))
     lon = Angle(lon, radians=True)
     lon = lon.to_positive()
     lat = Angle(lat, radians=True)
@@ -999,8 +1004,13 @@ def ecliptical2equatorial(longitude, latitude, obliquity):
     lon = longitude.rad()
     lat = latitude.rad()
     eps = obliquity.rad()
-    ra = atan2((sin(lon) * cos(eps) - tan(lat) * sin(eps)), cos(lon))
-    dec = asin(sin(lat) * cos(eps) + cos(lat) * sin(eps) * sin(lon))
+    y = sin(lon) * cos(eps) - tan(lat) * sin(eps)
+    x = cos(lon)
+    ra = atan2(y, x)
+    # cos(dec) = |cos(lat)| * sqrt(x^2 + y^2): atan2 keeps its accuracy
+    # close to the poles, where asin() loses it (and can leave its domain)
+    dec = atan2(sin(lat) * cos(eps) + cos(lat) * sin(eps) * sin(lon),
+                abs(cos(lat)) * sqrt(x * x + y * y))
     ra = Angle(ra, radians=True)
     ra = ra.to_positive()
     dec = Angle(dec, radians=True)
@@ -1062,8 +1072,13 @@ def equatorial2horizontal(hour_angle, declination, geo_latitude):
     h = hour_angle.rad()
     dec = declination.rad()
     lat = geo_latitude.rad()
-    azi = atan2(sin(h), (cos(h) * sin(lat) - tan(dec) * cos(lat)))
-    ele = asin(sin(lat) * sin(dec) + cos(lat) * cos(dec) * cos(h))
+    y = sin(h)
+    x = cos(h) * sin(lat) - tan(dec) * cos(lat)
+    azi = atan2(y, x)
+    # cos(ele) = |cos(dec)| * sqrt(x^2 + y^2): atan2 keeps its accuracy
+    # close to the poles, where asin() loses it (and can leave its domain)
+    ele = atan2(sin(lat) * sin(dec) + cos(lat) * cos(dec) * cos(h),
+                abs(cos(dec)) * sqrt(x * x + y * y))
     azi = Angle(azi, radians=True)
     ele = Angle(ele, radians=True)
     return (azi, ele)
@@ -1118,8 +1133,13 @@ def horizontal2equatorial(azimuth, elevation, geo_latitude):
     azi = azimuth.rad()
     ele = elevation.rad()
     lat = geo_latitude.rad()
-    h = atan2(sin(azi), (cos(azi) * sin(lat) + tan(ele) * cos(lat)))
-    dec = asin(sin(lat) * sin(ele) - cos(lat) * cos(ele) * cos(azi))
+    y = sin(azi)
+    x = cos(azi) * sin(lat) + tan(ele) * cos(lat)
+    h = atan2(y, x)
+    # cos(dec) = |cos(ele)| * sqrt(x^2 + y^2): atan2 keeps its accuracy
+    # close to the poles, where asin() loses it (and can leave its domain)
+    dec = atan2(sin(lat) * sin(ele) - cos(lat) * cos(ele) * cos(azi),
+                abs(cos(ele)) * sqrt(x * x + y * y))
     h = Angle(h, radians=True)
     dec = Angle(dec, radians=True)
     return (h, dec)
@@ -1163,11 +1183,16 @@ def equatorial2galactic(right_ascension, declination):
     c1ra = c1 - ra
     c2 = Angle(27.4)
     c2 = c2.rad()
-    x = atan2(sin(c1ra), (cos(c1ra) * sin(c2) - tan(dec) * cos(c2)))
+    yy = sin(c1ra)
+    xx = cos(c1ra) * sin(c2) - tan(dec) * cos(c2)
+    x = atan2(yy, xx)
     lon = Angle(-x, radians=True)
     lon = 303.0 + lon
     lon = lon.to_positive()
-    lat = asin(sin(dec) * sin(c2) + cos(dec) * cos(c2) * cos(c1ra))
+    # cos(lat) = |cos(dec)| * sqrt(x^2 + y^2): atan2 keeps its accuracy
+    # close to the poles, where asin() loses it (and can leave its domain)
+    lat = atan2(sin(dec) * sin(c2) + cos(dec) * cos(c2) * cos(c1ra),
+                abs(cos(dec)) * sqrt(xx * xx + yy * yy))
     lat = Angle(lat, radians=True)
     return (lon, lat)
 
@@ -1209,11 +1234,16 @@ def galactic2equatorial(longitude, latitude):
     c2 = Angle(27.4)
     c2 = c2.rad()
     lc1 = lon - c1
-    y = atan2(sin(lc1), (cos(lc1) * sin(c2) - tan(lat) * cos(c2)))
+    yy = sin(lc1)
+    xx = cos(lc1) * sin(c2) - tan(lat) * cos(c2)
+    y = atan2(yy, xx)
     y = Angle(y, radians=True)
     ra = y + 12.25
     ra.to_positive()
-    dec = asin(sin(lat) * sin(c2) + cos(lat) * cos(c2) * cos(lc1))
+    # cos(dec) = |cos(lat)| * sqrt(x^2 + y^2): atan2 keeps its accuracy
+    # close to the poles, where asin() loses it (and can leave its domain)
+    dec = atan2(sin(lat) * sin(c2) + cos(lat) * cos(c2) * cos(lc1),
+                abs(cos(lat)) * sqrt(xx * xx + yy * yy))
     dec = Angle(dec, radians=True)
     return (ra, dec)
 
